@@ -1226,6 +1226,18 @@ func SameLoad(a, b ssa.Value) bool {
 	if la.X == lb.X {
 		return true
 	}
+	// same element of the same (parameter) slice / array with a constant index
+	if ia, ok := la.X.(*ssa.IndexAddr); ok {
+		if ib, ok := lb.X.(*ssa.IndexAddr); ok && ia.X == ib.X {
+			ka, oka := ConstInt(ia.Index)
+			kb, okb := ConstInt(ib.Index)
+			if oka && okb && ka == kb {
+				if _, isPar := ia.X.(*ssa.Parameter); isPar {
+					return true
+				}
+			}
+		}
+	}
 	ba, pa, oka := FieldRef(la.X)
 	bb, pb, okb := FieldRef(lb.X)
 	if !oka || !okb || ba != bb || len(pa) != len(pb) {
